@@ -409,7 +409,52 @@ func c20Disjunction(sym *Sym, cl *ssa.Function, hit, miss bool) string {
 	if len(cl.Params) != 1 {
 		return "closure does not take one node"
 	}
+	isList := func(v ssa.Value) bool {
+		base, ok := v.(*ssa.UnOp)
+		if !ok || base.Op != token.MUL {
+			return false
+		}
+		_, isFv := base.X.(*ssa.FreeVar)
+		return isFv
+	}
+	return c20DisjunctionIn(sym, cl, isList, cl.Params[0], hit, miss, 0)
+}
+
+func c20DisjunctionIn(sym *Sym, cl *ssa.Function, isList func(ssa.Value) bool, node ssa.Value, hit, miss bool, depth int) string {
 	loops := ssaLoops(cl)
+	if len(loops) == 0 && depth < 2 {
+		// the scan handed to a helper: helper(members, node), possibly negated
+		var rets []*ssa.Return
+		for _, b := range cl.Blocks {
+			if ret, ok := b.Instrs[len(b.Instrs)-1].(*ssa.Return); ok {
+				rets = append(rets, ret)
+			}
+		}
+		if len(rets) == 1 && len(rets[0].Results) == 1 {
+			v := rets[0].Results[0]
+			if not, ok := v.(*ssa.UnOp); ok && not.Op == token.NOT {
+				v, hit, miss = not.X, !hit, !miss
+			}
+			if c, ok := v.(*ssa.Call); ok && c.Call.StaticCallee() != nil && c.Call.StaticCallee().Blocks != nil && strings.HasPrefix(pkgPathOf(c.Call.StaticCallee()), modPath) {
+				h := c.Call.StaticCallee()
+				var listP, nodeP *ssa.Parameter
+				for i, a := range c.Call.Args {
+					if i >= len(h.Params) {
+						break
+					}
+					switch {
+					case isList(a):
+						listP = h.Params[i]
+					case a == node:
+						nodeP = h.Params[i]
+					}
+				}
+				if listP != nil && nodeP != nil && len(c.Call.Args) == 2 {
+					return c20DisjunctionIn(sym, h, func(x ssa.Value) bool { return x == ssa.Value(listP) }, nodeP, hit, miss, depth+1)
+				}
+			}
+		}
+	}
 	if len(loops) != 1 {
 		return fmt.Sprintf("%d loops", len(loops))
 	}
@@ -424,19 +469,14 @@ func c20Disjunction(sym *Sym, cl *ssa.Function, hit, miss bool) string {
 		if !ok || !isRangeIndex(ia.Index) {
 			return false
 		}
-		base, ok := ia.X.(*ssa.UnOp)
-		if !ok || base.Op != token.MUL {
-			return false
-		}
-		_, isFv := base.X.(*ssa.FreeVar)
-		return isFv
+		return isList(ia.X)
 	}
 	classify := func(a *pcAtom) string {
 		// fltr == nil
 		if a.op == token.EQL && a.x != nil && (isNilConst(a.x) && member(a.y) || isNilConst(a.y) && member(a.x)) {
 			return "nil"
 		}
-		if c, ok := a.v.(*ssa.Call); ok && !c.Call.IsInvoke() && c.Call.StaticCallee() == nil && len(c.Call.Args) == 1 && c.Call.Args[0] == ssa.Value(cl.Params[0]) && member(c.Call.Value) {
+		if c, ok := a.v.(*ssa.Call); ok && !c.Call.IsInvoke() && c.Call.StaticCallee() == nil && len(c.Call.Args) == 1 && c.Call.Args[0] == node && member(c.Call.Value) {
 			return "match"
 		}
 		if a.op == token.LSS && a.x != nil && isRangeIndex(a.x) {
